@@ -6,6 +6,7 @@ import (
 	"fmt"
 	"os"
 	"path/filepath"
+	"runtime/debug"
 	"sort"
 	"strings"
 
@@ -96,6 +97,9 @@ func buildBM(s *bmSpec) (bm *bondmachine.Bondmachine, err error) {
 	}
 	if len(s.Shared) > 0 {
 		bm.Add_shared_objects(s.Shared)
+		if len(bm.Shared_objects) != len(s.Shared) {
+			return nil, fmt.Errorf("shared object strings not accepted: %v", s.Shared)
+		}
 		for _, l := range s.SharedLinks {
 			bm.Connect_processor_shared_object([]string{fmt.Sprint(l[0]), fmt.Sprint(l[1])})
 		}
@@ -140,6 +144,9 @@ func writeVerilogFiles(bm *bondmachine.Bondmachine, hwopt []string, flavor strin
 		defer func() {
 			if r := recover(); r != nil {
 				err = fmt.Errorf("panic: %v", r)
+				if os.Getenv("BMH_TRACE") != "" {
+					fmt.Fprintf(os.Stderr, "%s\n", debug.Stack())
+				}
 			}
 		}()
 		iomap := new(bondmachine.IOmap)
